@@ -91,6 +91,7 @@ def run(tier):
                              "Horner evaluation at 0 returns the last coefficient (summary used for polevl/p1evl)"],
                 trusted_base=["rustc type checker and name resolution", "ndv-export", "ndvlib/interp.py", "ndvlib/domb.py transfer functions"])
     F = facts.load("default")
+    ACTIVE_POINTS[0] = POINTS + MORE_POINTS if tier == "thorough" else POINTS
     for ty in TYPES:
         powers(chk, F, ty)
         atan2_axes(chk, F, ty)
@@ -119,7 +120,7 @@ def float_special(chk, F):
             if body is None:
                 chk.undecide("special|%s|%s" % (fl, name), "missing anchor")
                 continue
-            for pname, val in POINTS:
+            for pname, val in ACTIVE_POINTS[0]:
                 key = "special|%s|%s|%s" % (fl, name, pname)
                 try:
                     paths = run_b(F, body, lambda: [Sc(BV(["zero"] if val == 0 else (["pos"] if val > 0 else ["neg"]), ex=val))])
@@ -241,6 +242,10 @@ def atan2_axes(chk, F, ty):
 TINY = Fr(1, 2 ** 1074)   # the smallest positive f64: the immediate floating-point neighbours of 0
 MIN_NORMAL = Fr(1, 2 ** 1022)
 POINTS = (("x=0", Fr(0)), ("x=+tiny", TINY), ("x=-tiny", -TINY), ("x=+min_normal", MIN_NORMAL), ("x=-min_normal", -MIN_NORMAL))
+# thorough tier: further neighbours on both sides — where x^2 / x^3 underflow, next to the machine-epsilon switch, the next subnormals
+MORE_POINTS = tuple(("x=%s2^-%d" % ("+" if s_ > 0 else "-", k), s_ * Fr(1, 2 ** k)) for k in (1073, 1000, 700, 538, 537, 359, 358, 200, 60, 53)
+                    for s_ in (1, -1))
+ACTIVE_POINTS = [POINTS]
 
 
 def unary_at_zero(chk, F, ty):
@@ -250,7 +255,7 @@ def unary_at_zero(chk, F, ty):
         if body is None:
             chk.undecide("special|%s|%s|x=0" % (ty, name), "missing anchor")
             continue
-        for pname, val in POINTS:
+        for pname, val in ACTIVE_POINTS[0]:
             key = "special|%s|%s|%s" % (ty, name, pname)
             try:
                 paths = run_b(F, body, lambda: [b_operand(ty, BV(["zero"] if val == 0 else (["pos"] if val > 0 else ["neg"]), ex=val))])
